@@ -425,6 +425,10 @@ pub fn run(args: &Args) -> i32 {
     }
     stress(&rt, args, &mut ev);
     unsafe { ffi::rodbus_runtime_destroy(rt.0) };
+    if args.tier == Tier::Thorough && !args.extra.contains_key("no-legs") {
+        crate::legs::miri_ffi(args, "C19", &mut ev);
+        crate::legs::asan(args, "c19", "C19", &mut ev);
+    }
     let meta = Meta {
         property_id: "C19",
         level: "exploration",
